@@ -550,9 +550,21 @@ class Effects:
             else:
                 operands = [n.test]
             for e in operands:
-                if isinstance(e, (ast.BoolOp, ast.UnaryOp, ast.Compare, ast.Call, ast.Constant)):
+                if isinstance(e, (ast.BoolOp, ast.UnaryOp, ast.Compare, ast.Constant)):
                     continue
                 t = self.r.type_of(e, f)
+                if t is None and isinstance(e, ast.Call) and isinstance(e.func, ast.Attribute) and e.func.attr in ("get", "pop", "setdefault"):
+                    # d.get(k): the value type of an annotated Dict[..., T] attribute
+                    ann = None
+                    base = e.func.value
+                    if isinstance(base, ast.Attribute) and isinstance(base.value, ast.Name) and base.value.id == "self" and f.cls:
+                        c_ = self.p.classes.get(f.cls)
+                        ann = c_.annotations.get(base.attr) if c_ is not None else None
+                    if ann is not None:
+                        txt = ast.unparse(ann)
+                        for cn in self.p.classes:
+                            if txt.rstrip("]").endswith(cn) or f", {cn}]" in txt:
+                                t = cn
                 if t:
                     m = self.p.lookup_method(t, "__bool__") or self.p.lookup_method(t, "__len__")
                     if m is not None:
